@@ -321,10 +321,12 @@ def _assembly_sparse(repo, col, R=None):
         # convert_to_csc sorts by (col, row) and builds indptr over col; fed to a CSR solver the
         # compressed axis (col_ind) acts as the row.
         csc = repo.func(SU, "convert_to_csc")
+        excsc = idxm.expander(repo, csc)
         compress = None
         for n in ast.walk(csc.node):
             if isinstance(n, ast.Call) and unparse(n.func) == "np.add.at" and len(n.args) >= 2:
-                compress = "col_ind" if "col_ind" in unparse(n.args[1]) else ("row_ind" if "row_ind" in unparse(n.args[1]) else None)
+                pn = {x.name for x in excsc.term(n.args[1]).walk() if x.op == "param"}   # which index the pointer array counts (on the defining term)
+                compress = "col_ind" if "col_ind" in pn else ("row_ind" if "row_ind" in pn else None)
         if compress == "col_ind":
             eff_row = pair.get(c_i)
         elif compress == "row_ind":
@@ -647,6 +649,15 @@ def _calls_in(body):
     return out
 
 
+def _stmt_containing(loop, node):
+    """the statement of the loop body that contains `node`"""
+    for st in ast.walk(loop):
+        if isinstance(st, ast.stmt) and st is not loop and any(x is node for x in ast.walk(st)) and \
+                not any(isinstance(ch, ast.stmt) and any(x is node for x in ast.walk(ch)) for ch in ast.iter_child_nodes(st)):
+            return st
+    return None
+
+
 def _schedule(repo, col):
     R = "R-C01-schedule"
     for fname, want_rev, pre, loop_order, post in (
@@ -704,7 +715,13 @@ def _schedule(repo, col):
                   and n.func.id in ("_triang_level", "_backsub_level")]:
             a = unparse(c.args[0])
             inloop = any(c is x for x in ast.walk(lp))
-            col.check(a == (f"{cvar}[:, 0]" if inloop else "idx.root_inds"), R, fi,
+            # compared on the defining terms: column 0 of the loop's children list / the indexer's root branches
+            at_ = ex.term(c.args[0])
+            if inloop and cvar is not None:
+                want_t = ex.term_of_source(f"{cvar}[:, 0]", _stmt_containing(lp, c))
+            else:
+                want_t = ex.term_of_source("idx.root_inds", None)
+            col.check(at_.key() == want_t.key(), R, fi,
                       f"{fname}: {c.func.id} on {'the child branches of the level' if inloop else 'the root branches'}",
                       "children's branches inside the loop, roots outside",
                       f"{c.func.id} is applied to `{a}` {'inside' if inloop else 'outside'} the level loop", node=c)
